@@ -124,6 +124,8 @@ oer_open_type_put(const asn_TYPE_descriptor_t *td,
     asn_enc_rval_t er;
     ssize_t len_len;
 
+    if(!td->op->oer_encoder) return -1; /* OER is not defined for this type */
+
     er = td->op->oer_encoder(td, constraints, sptr, oer__count_bytes,
                              &serialized_byte_count);
     if(er.encoded < 0) return -1;
